@@ -219,7 +219,7 @@ main(void)
         set_uri(k);
         VASSERT(storage_set(dev, &props) == Device_Ok, "set failed for a writable path");
         VASSERT(storage_start(dev) == Device_Ok, "start failed although open succeeds");
-        VASSERT(fs_open_count() == 1, "start did not open exactly one descriptor");
+        VASSERT(fs_open_count() == 1, "C14/C16: start did not leave exactly one descriptor open (the previous acquisition's file must be closed, the new one opened)");
         uint64_t appended = 0;
         for (int a = 0; a < NAPP; ++a) {
             size_t n = ND(uint8_t);
@@ -230,11 +230,18 @@ main(void)
             obs_on = 0;
             appended += n;
         }
-        VASSERT(storage_stop(dev) == Device_Ok, "stop failed");
+        /* the client may re-configure and start again WITHOUT stopping first (set while running leaves
+         * the HAL Armed, so a stop in between would not reach the device either): the next acquisition
+         * must still go to its own file from offset 0 */
+        bool_t skip_stop = (c + 1 < CYCLES) ? ND(bool_t) : 0;
+        if (!skip_stop) {
+            VASSERT(storage_stop(dev) == Device_Ok, "stop failed");
+            VASSERT(fs_open_count() == 0, "C16: descriptor left open after stop");
+        }
         VASSERT(fs_files[file].exists, "C14: file not created");
         VASSERT(fs_bad_fd_ops == 0, "C16: operation on a descriptor the device does not own");
-        VASSERT(fs_open_count() == 0, "C16: descriptor left open after stop");
         COVER(c == 1 && appended > 0);
+        COVER(c == 0 && skip_stop);
     }
     storage_close(dev);
     VASSERT(destroyed == 1, "close did not destroy the device");
